@@ -130,7 +130,7 @@ def _post_from_cfg(cfg, fit_by_name, order):
     return modes
 
 
-def execute(case, keep_text=False):
+def execute(case, keep_text=False, after_fit=None):
     warmup()
     cfg = case['config']
     out = Outcome()
@@ -263,6 +263,11 @@ def execute(case, keep_text=False):
         samplers.set_plan(None)
         import taurex.log
         taurex.log.disableLogging()
+    if after_fit is not None:
+        # used by C16: hand the real solution dictionary over and stop here
+        after_fit(solutions=solutions, opts=opts, world=world)
+        shutil.rmtree(chain, ignore_errors=True)
+        return out
     out.bump('steps', 'collectives', world.ncollectives)
     out.bump('steps', 'fits', Rn)
     if Rn > 1:
